@@ -118,7 +118,7 @@ def _compact(r):
 
 def sweep(tier, seed, weights=None):
     count, shards = SIZES[tier]
-    boxcfgs = list(C.box(tier))
+    boxcfgs = list(C.box(tier)) + list(C.large_n_probes(tier))
     box_results = R.pmap(_exec, boxcfgs)
     gen = R.pmap(_shard, [(tier, seed, s, count, weights) for s in range(shards)], chunksize=1)
     gen_results = [r for part in gen for r in part]
@@ -132,7 +132,9 @@ def run(prop, args):
     boxcfgs, box_results, gen_results = sweep(args.tier, args.seed, C09_WEIGHTS if prop == "C09" else None)
     N = 10 if args.tier == "quick" else 24
     rep.exhaustive = [{"box": "every class variant, n<=%d, all unit counts 0..n+1 (HRevolve RAM<=6, DISK<=4), all splits/trajectories/storages, period<=6, binomial_snapshots<=4, 6 cost vectors" % N,
-                       "cases": len(boxcfgs), "exhaustive": True}]
+                       "cases": len(boxcfgs) - len(list(C.large_n_probes(args.tier))), "exhaustive": True},
+                      {"box": "large-n probes: 14 configs per n in %s" % (list(C.LARGE_N) + ([] if args.tier == "quick" else [401, 512, 513])),
+                       "cases": len(list(C.large_n_probes(args.tier))), "exhaustive": True}]
     rep.extra["generated_cases"] = len(gen_results)
     rep.extra["box_cases"] = len(box_results)
     seen = set()
